@@ -84,6 +84,9 @@ func main() {
 		}()
 		p.Run(ctx)
 	}()
+	if sum := rules.Summary[p.ID]; sum != "" {
+		rep.Explanation = sum + " — Rule by rule: " + rep.Explanation
+	}
 	rep.Assumptions = append(rep.Assumptions,
 		"go/packages + go/types resolve identifiers, selections and callees as the compiler does",
 		"the path walker's abstraction: facts on nil-ness, truth and order of abstract values only; loops analysed for zero and one iteration per path with loop-assigned variables havoc'd; helper inlining bounded (depth 3-4); built-in axioms: errors.Is/As(nil)=false, fmt.Errorf/errors.New/allocations non-nil, false comma-ok implies the zero value",
